@@ -45,6 +45,10 @@ Inductive sclass :=
                                session, user, host, file names, attribute values             *)
 | SServerMsg                (* client side: the result message received from the server      *)
 | SExc (classes : list string)  (* str(e) of the exception caught by the enclosing handler   *)
+| SWire                     (* decoder diagnostics: a tag / type / length / padding / Boolean field
+                               (at most 8 bytes) read from the request being decoded, echoed as a
+                               number.  Known finding C20-decoder-field-echo: these bytes are request
+                               content and can be key bytes of a malformed request.               *)
 | SSecret (e : string)      (* syntactically recognised secret-bearing expression            *)
 | SUnknown (e : string).    (* anything the whitelist does not recognise                     *)
 
@@ -56,6 +60,7 @@ Record site := mkSite {
 Inductive argclass :=
 | AUid | AOpName | ATypeName | AEnumName | AAttrName | ANum | ATime | AVersion
 | AClientText | AServerMsg
+| AWire           (* <= 8 bytes of the undecodable request, as a decimal / hex number (known finding) *)
 | AExcPk          (* text of an exception raised by PyKMIP code: itself a rendering of a raise site *)
 | AExcForeign.    (* text of an exception that third-party code may have built: NOT modelled        *)
 
@@ -63,8 +68,9 @@ Inductive frag := FLit (s : string) | FTemplate | FArg (c : argclass).
 
 Definition mem (x : string) (l : list string) : bool := existsb (String.eqb x) l.
 
-(* pk : names of the exception classes defined by the PyKMIP package (generated). *)
-Definition to_frag (pk : list string) (p : sclass) : option frag :=
+(* pk : names of the exception classes defined by the PyKMIP package (generated).
+   aw : allow the decoder's wire-field echo (true = the code as it is; false = the full-strength claim). *)
+Definition to_frag (aw : bool) (pk : list string) (p : sclass) : option frag :=
   match p with
   | SLit s => Some (FLit s)
   | STemplate => Some FTemplate
@@ -80,18 +86,21 @@ Definition to_frag (pk : list string) (p : sclass) : option frag :=
   | SServerMsg => Some (FArg AServerMsg)
   | SExc cls => Some (FArg (if (negb (match cls with [] => true | _ => false end)) && forallb (fun c => mem c pk) cls
                            then AExcPk else AExcForeign))
+  | SWire => if aw then Some (FArg AWire) else None
   | SSecret _ => None
   | SUnknown _ => None
   end.
 
-Fixpoint to_frags (pk : list string) (ps : list sclass) : option (list frag) :=
+Fixpoint to_frags (aw : bool) (pk : list string) (ps : list sclass) : option (list frag) :=
   match ps with
   | [] => Some []
-  | p :: r => match to_frag pk p, to_frags pk r with
+  | p :: r => match to_frag aw pk p, to_frags aw pk r with
               | Some f, Some fs => Some (f :: fs)
               | _, _ => None
               end
   end.
+
+Definition has_wire (s : site) : bool := existsb (fun p => match p with SWire => true | _ => false end) (s_parts s).
 
 Definition is_foreign (f : frag) : bool := match f with FArg AExcForeign => true | _ => false end.
 
@@ -105,14 +114,14 @@ Definition observable (k : kind) : bool :=
   end.
 
 (* The obligation on one site. *)
-Definition site_ok (pk : list string) (s : site) : bool :=
+Definition site_ok (aw : bool) (pk : list string) (s : site) : bool :=
   negb (observable (s_kind s)) ||
-  match to_frags pk (s_parts s) with Some _ => true | None => false end.
+  match to_frags aw pk (s_parts s) with Some _ => true | None => false end.
 
 (* Strict: additionally no un-modelled (third-party) exception text. *)
-Definition site_ok_strict (pk : list string) (s : site) : bool :=
+Definition site_ok_strict (aw : bool) (pk : list string) (s : site) : bool :=
   negb (observable (s_kind s)) ||
-  match to_frags pk (s_parts s) with Some fs => negb (existsb is_foreign fs) | None => false end.
+  match to_frags aw pk (s_parts s) with Some fs => negb (existsb is_foreign fs) | None => false end.
 
 (* The runtime remainder is pinned by (file, function): a new `logger.exception(e)` under a broad
    handler in another function breaks [remainder_pinned]. *)
@@ -184,11 +193,12 @@ Definition arg_ok (c : argclass) (a : string) : bool :=
   | AOpName => closed_text (String.append wordchars " .") 80 a
   | AEnumName => closed_text (String.append wordchars " .<>:',()[]") 200 a
   | ATypeName => closed_text (String.append wordchars " .<>:',()[]") 200 a
+  | AWire => closed_text "0123456789abcdefxL-" 22 a
   | AAttrName | AUid | AClientText | AServerMsg | AExcPk | AExcForeign => true
   end.
 
 Definition closed_class (c : argclass) : bool :=
-  match c with ANum | ATime | AVersion | AOpName | AEnumName | ATypeName => true | _ => false end.
+  match c with ANum | ATime | AVersion | AOpName | AEnumName | ATypeName | AWire => true | _ => false end.
 
 Fixpoint args_ok (fs : list frag) (args : list string) : bool :=
   match fs with
@@ -205,7 +215,7 @@ Record event := mkEvent { ev_site : nat; ev_args : list string }.
 Definition dummy_site := mkSite "" 0 0 "" (KLog LDebug) "" [].
 
 Definition event_text (pk : list string) (tbl : list site) (e : event) : option string :=
-  match to_frags pk (s_parts (nth (ev_site e) tbl dummy_site)) with
+  match to_frags true pk (s_parts (nth (ev_site e) tbl dummy_site)) with
   | Some fs => render fs (ev_args e)
   | None => None
   end.
@@ -215,7 +225,7 @@ Definition wf_event (pk : list string) (tbl : list site) (e : event) : bool :=
   Nat.ltb (ev_site e) (List.length tbl) &&
   let s := nth (ev_site e) tbl dummy_site in
   observable (s_kind s) &&
-  match to_frags pk (s_parts s) with
+  match to_frags true pk (s_parts s) with
   | Some fs => args_ok fs (ev_args e)
   | None => false
   end.
